@@ -39,6 +39,15 @@ case "$verb" in
     /bin/cat "$D/minimize.out"
     exit $(/bin/cat "$D/minimize.rc");;
   restore)
+    # which benchmark processes of this scenario are still running at this very moment?
+    # (a process killed directly with SIGKILL cannot log its own end)
+    for pid in $(grep -a '^start' "$D/log" | cut -d"$(printf '\037')" -f2); do
+      if [ -d "/proc/$pid" ] && ! grep -q '^State:[[:space:]]*Z' "/proc/$pid/status" 2>/dev/null; then
+        if ! grep -a -q "^stop$(printf '\037')$pid" "$D/log"; then
+          printf 'alive-at-restore%%s%%s\n' "$(printf '\037')" "$pid" >> "$D/log"
+        fi
+      fi
+    done
     echo '{}'
     exit 0;;
   kill)
@@ -128,8 +137,15 @@ def run_cli_session(wd, sc, report_bytes, report_rc, repo):
         raise lib.InfraError('refusing to run: a real sudo exists on the default PATH')
     if sc.get('sudo_missing'):
         os.unlink(fake)
+    # the second benchmark has its own env map: a different set of variables to forward
+    run_env_b2 = dict(run_env)
+    run_env_b2['ONLY_B2'] = 'x'
+    run_env_b2.pop('A', None)
+    b2 = {'env': run_env_b2}
+    if sc['path'] == 'ui_error':
+        b2['extra_args'] = '%z'
     suite = {'gauge_adapter': 'RebenchLog', 'command': 'h %(benchmark)s %(invocation)s',
-             'benchmarks': ['B1', {'B2': {'extra_args': '%z'}} if sc['path'] == 'ui_error' else 'B2']}
+             'benchmarks': ['B1', {'B2': b2}]}
     if sc['path'] == 'crash':
         with open(os.path.join(wd, 'crash_adapter.py'), 'w') as f:
             f.write(CRASH_ADAPTER)
@@ -190,4 +206,4 @@ def run_cli_session(wd, sc, report_bytes, report_rc, repo):
             envs[n] = d
     return {'events': events, 'exit': rc, 'stdout': out.decode('utf-8', 'replace'),
             'stderr': err.decode('utf-8', 'replace'), 'left_running': left, 'killed': sorted(killed),
-            'envs': envs, 'fake_sudo': fake, 'run_env': run_env, 'wall': t_end}
+            'envs': envs, 'fake_sudo': fake, 'run_env': run_env, 'run_env_b2': run_env_b2, 'wall': t_end}
